@@ -310,20 +310,24 @@ type schedule struct {
 	eager bool
 	// tickCut: the stage cuts a chunk after every batch it processed, as LogProcessingWorker.onTick does (else only at the end)
 	tickCut bool
+	// masks (thorough): instead of flushEach / eager, a flush pause follows line i iff bit i of flushMask is set, and the
+	// stage processes everything queued after that pause iff bit i of drainMask is set
+	masks                bool
+	flushMask, drainMask int
 }
 
 var schedules = []schedule{
-	{"each-eager-tickcut", 1, true, false, true, true},
-	{"each-eager-endcut", 1, true, false, true, false},
-	{"each-lag-tickcut", 1, true, false, false, true},
-	{"each-hold-endcut", 1, true, true, false, false},
-	{"batch", 1, false, false, false, false},
-	{"two-eager-tickcut", 2, true, false, true, true},
-	{"two-lag-endcut", 2, true, false, false, false},
+	{name: "each-eager-tickcut", conns: 1, flushEach: true, eager: true, tickCut: true},
+	{name: "each-eager-endcut", conns: 1, flushEach: true, eager: true},
+	{name: "each-lag-tickcut", conns: 1, flushEach: true, tickCut: true},
+	{name: "each-hold-endcut", conns: 1, flushEach: true, hold: true},
+	{name: "batch", conns: 1},
+	{name: "two-eager-tickcut", conns: 2, flushEach: true, eager: true, tickCut: true},
+	{name: "two-lag-endcut", conns: 2, flushEach: true},
 	// thorough only
-	{"two-hold-tickcut", 2, true, true, false, true},
-	{"two-batch", 2, false, false, false, false},
-	{"each-lag-endcut", 1, true, false, false, false},
+	{name: "two-hold-tickcut", conns: 2, flushEach: true, hold: true, tickCut: true},
+	{name: "two-batch", conns: 2},
+	{name: "each-lag-endcut", conns: 1, flushEach: true},
 }
 
 const quickSchedules = 7
@@ -615,10 +619,10 @@ func (p *opipe) run(seqShapes []shape2, sc schedule) (perOutput []map[int]oDecod
 		for j := range p.readBuf[:n] {
 			p.readBuf[j] = '#'
 		}
-		if sc.flushEach {
+		if sc.flushEach || (sc.masks && sc.flushMask&(1<<uint(i)) != 0) {
 			p.drain(true, sc.tickCut) // never let a send into a full channel wait for its 60 s timeout
 			sinks[k].Flush()
-			if sc.eager {
+			if sc.eager || (sc.masks && sc.drainMask&(1<<uint(i)) != 0) {
 				p.drain(false, sc.tickCut)
 			}
 		}
@@ -733,7 +737,7 @@ type aloneResult2 struct {
 
 var aloneCache2 = map[string]aloneResult2{}
 
-var aloneSchedule = schedule{"alone", 1, true, false, true, false}
+var aloneSchedule = schedule{name: "alone", conns: 1, flushEach: true, eager: true}
 
 // runAlone2: the record alone on a fresh orchestrated pipeline; the absolute clauses (tag and pipeline ID follow the
 // record's own keys, key labels) are applied to the alone run as well, so the reference itself is checked.
@@ -764,13 +768,68 @@ func runAlone2(ov orchVariant, os_ outputSet, sh shape2) aloneResult2 {
 }
 
 // additive says whether a metric family counts per record, so that the value after a sequence is the sum of the values of
-// its records alone. The chunk counters depend on where chunks are cut.
+// its records alone: the record / byte counters of input and processing (metric help texts: "Numbers of passed log records",
+// "... dropped log records", "... labelled log records", "Total lengths in bytes of serialized log records"). The chunk
+// counters depend on where chunks are cut, the buffer / output / recovery families count chunks.
 func additive(series string) bool {
 	name := series
 	if i := strings.IndexByte(series, '{'); i >= 0 {
 		name = series[:i]
 	}
-	return !strings.HasSuffix(name, "chunks_total") && !strings.HasSuffix(name, "chunk_bytes_total")
+	if !strings.HasPrefix(name, "iso_process_") && !strings.HasPrefix(name, "isoin_input_") {
+		return false
+	}
+	name = strings.TrimPrefix(strings.TrimPrefix(name, "iso_process_"), "isoin_input_")
+	switch name {
+	case "passed_records_total", "passed_record_bytes_total", "dropped_records_total", "dropped_record_bytes_total",
+		"labelled_records_total", "labelled_record_bytes_total", "serialized_bytes_total":
+		return true
+	}
+	return false
+}
+
+// checkMetrics is the metrics oracle: (1) every per-record counter series that exists after the sequence — label values
+// included — is a series that a record of the sequence produces alone, and its value is the sum over the records;
+// (2) the orchestration key labels of EVERY series are the key values of a record of the sequence.
+func checkMetrics(where string, ov orchVariant, seqShapes []shape2, metrics, expectedMetrics map[string]float64) (string, string) {
+	for _, k := range sortedKeys(metrics) {
+		if !additive(k) {
+			continue
+		}
+		if _, known := expectedMetrics[k]; !known {
+			return "metrics:series-of-no-record", fmt.Sprintf("%s: the metric series %s = %v exists after the sequence, but none of its records produces a series with these label values when processed alone (expected series: %s)", where, k, metrics[k], clip(strings.Join(sortedKeys(expectedMetrics), " ")))
+		}
+	}
+	for _, k := range sortedKeys(expectedMetrics) {
+		if _, exists := metrics[k]; !exists {
+			return "metrics:series-missing", fmt.Sprintf("%s: the metric series %s (= %v) which a record of the sequence produces when processed alone does not exist after the sequence (series: %s)", where, k, expectedMetrics[k], clip(strings.Join(sortedKeys(metrics), " ")))
+		}
+		if metrics[k] != expectedMetrics[k] {
+			return "metrics:not-the-sum-of-the-records", fmt.Sprintf("%s: metric series %s = %v after the sequence, the records alone add up to %v", where, k, metrics[k], expectedMetrics[k])
+		}
+	}
+	if len(ov.keys) > 0 {
+		allowed := map[string]bool{}
+		for _, sh := range seqShapes {
+			if sh.raw == "" {
+				allowed[strings.Join(ov.keyOf(sh), "\x00")] = true
+			}
+		}
+		for _, k := range sortedKeys(metrics) {
+			vals := make([]string, len(ov.keys))
+			n := 0
+			for i, name := range ov.keys {
+				if v, ok := labelValue(k, "key_"+name); ok {
+					vals[i] = v
+					n++
+				}
+			}
+			if n == len(ov.keys) && !allowed[strings.Join(vals, "\x00")] {
+				return "metrics:key-label-of-no-record", fmt.Sprintf("%s: metric series %s carries the orchestration key labels %q, which are the key values of no record of the sequence", where, k, vals)
+			}
+		}
+	}
+	return "", ""
 }
 
 var ostats struct {
@@ -843,55 +902,7 @@ func checkOrchestrated(ov orchVariant, os_ outputSet, seqShapes []shape2, sc sch
 			}
 		}
 	}
-	// metrics: every per-record counter series (label values included) is the sum of what the records give alone
-	var keys []string
-	seen := map[string]bool{}
-	for k := range expectedMetrics {
-		keys, seen[k] = append(keys, k), true
-	}
-	for k, v := range metrics {
-		if !seen[k] && additive(k) {
-			_ = v
-			keys = append(keys, k)
-		}
-	}
-	sort.Strings(keys)
-	for _, k := range keys {
-		if _, known := expectedMetrics[k]; !known {
-			return "metrics:series-of-no-record", fmt.Sprintf("%s: the metric series %s = %v exists after the sequence, but none of its records produces a series with these label values when processed alone (expected series: %s)", where, k, metrics[k], clip(strings.Join(sortedKeys(expectedMetrics), " ")))
-		}
-	}
-	for _, k := range keys {
-		if _, exists := metrics[k]; !exists {
-			return "metrics:series-missing", fmt.Sprintf("%s: the metric series %s (= %v) which a record of the sequence produces when processed alone does not exist after the sequence (series: %s)", where, k, expectedMetrics[k], clip(strings.Join(sortedKeys(metrics), " ")))
-		}
-		if metrics[k] != expectedMetrics[k] {
-			return "metrics:not-the-sum-of-the-records", fmt.Sprintf("%s: metric series %s = %v after the sequence, the records alone add up to %v", where, k, metrics[k], expectedMetrics[k])
-		}
-	}
-	// absolute: the key labels of the pipeline metrics are key values of records of this sequence
-	if len(ov.keys) > 0 {
-		allowed := map[string]bool{}
-		for _, sh := range seqShapes {
-			if sh.raw == "" {
-				allowed[strings.Join(ov.keyOf(sh), "\x00")] = true
-			}
-		}
-		for k := range metrics {
-			vals := make([]string, len(ov.keys))
-			n := 0
-			for i, name := range ov.keys {
-				if v, ok := labelValue(k, "key_"+name, ov.keys); ok {
-					vals[i] = v
-					n++
-				}
-			}
-			if n == len(ov.keys) && !allowed[strings.Join(vals, "\x00")] {
-				return "metrics:key-label-of-no-record", fmt.Sprintf("%s: metric series %s carries the orchestration key labels %q, which are the key values of no record of the sequence", where, k, vals)
-			}
-		}
-	}
-	return "", ""
+	return checkMetrics(where, ov, seqShapes, metrics, expectedMetrics)
 }
 
 func sortedKeys(m map[string]float64) []string {
@@ -904,7 +915,7 @@ func sortedKeys(m map[string]float64) []string {
 }
 
 // labelValue extracts label="value" from a series key written by hutil.Metrics (values are %q-quoted)
-func labelValue(series, label string, _ []string) (string, bool) {
+func labelValue(series, label string) (string, bool) {
 	i := strings.Index(series, "{")
 	if i < 0 {
 		return "", false
@@ -947,6 +958,38 @@ func withoutMarker(f map[string]string) map[string]string {
 // ---------------------------------------------------------------------------------------------------------------------
 // enumeration
 
+// reduced menu of the triples of the quick tier and of the mask schedules: the pooled shapes (three of one size class, two of
+// them first of their key set), the two shapes of the multi-part input-stage addFields, the two truncate shapes, and the two
+// release-at-input paths with a pooled-size line
+var reducedNames = []string{"short", "pooled1500", "pooledP", "pooledQ", "full", "full2", "trunc", "pooled1900trunc", "indropBig", "malGarbage1500"}
+
+func findOrch(name string) orchVariant {
+	for _, ov := range orchVariants {
+		if ov.name == name {
+			return ov
+		}
+	}
+	panic("harness: no orchestration " + name)
+}
+
+func findSet2(name string) outputSet {
+	for _, os_ := range outputSets2 {
+		if os_.name == name {
+			return os_
+		}
+	}
+	panic("harness: no output set " + name)
+}
+
+func findSchedule(name string) schedule {
+	for _, sc := range schedules {
+		if sc.name == name {
+			return sc
+		}
+	}
+	panic("harness: no schedule " + name)
+}
+
 func enumerateOrchestrated(ctx *seq.Ctx) {
 	novs, nsets, nscheds := 3, 4, quickSchedules
 	if ctx.Thorough() {
@@ -987,29 +1030,73 @@ func enumerateOrchestrated(ctx *seq.Ctx) {
 			}
 		}
 	}
-}
-
-// debugDump prints what a case observed (VERIF_ISO_DEBUG=1 with -case <id>)
-func debugDump(p *opipe, per []map[int]oDecoded, metrics map[string]float64) {
-	for _, st := range p.stages {
-		fmt.Fprintf(os.Stderr, "pipeline id=%q tag=%q chunks per output:", st.idSnap, st.tagSnp)
-		for o := range st.chunks {
-			fmt.Fprintf(os.Stderr, " %d", len(st.chunks[o]))
-		}
-		fmt.Fprintln(os.Stderr)
-	}
-	for o := range per {
-		idxs := []int{}
-		for i := range per[o] {
-			idxs = append(idxs, i)
-		}
-		sort.Ints(idxs)
-		for _, i := range idxs {
-			fmt.Fprintf(os.Stderr, "output %d record #%d pipeline %q tag %q: %s\n", o, i, per[o][i].stage.idSnap, per[o][i].tag, clip(per[o][i].d.render(true)))
+	// triples
+	var reduced []int
+	for _, name := range reducedNames {
+		for i, sh := range shapes2 {
+			if sh.name == name {
+				reduced = append(reduced, i)
+			}
 		}
 	}
-	for _, k := range sortedKeys(metrics) {
-		fmt.Fprintf(os.Stderr, "metric %s = %v\n", k, metrics[k])
+	all := make([]int, len(shapes2))
+	for i := range all {
+		all[i] = i
 	}
-	fmt.Fprintf(os.Stderr, "reused records %d, reused buffers %d, chunks %d\n", p.recHits, p.bufHits, p.nChunks)
+	triples := func(ov orchVariant, os_ outputSet, sc schedule, menu []int, label string) bool {
+		ctx.Group(fmt.Sprintf("orch/%s/outputs=%s/%s/len3-%s", ov.name, os_.name, sc.name, label))
+		for _, a := range menu {
+			for _, b := range menu {
+				if ctx.Stop() {
+					return false
+				}
+				for _, c := range menu {
+					emit(ov, os_, sc, []int{a, b, c})
+				}
+			}
+		}
+		return true
+	}
+	if !ctx.Thorough() {
+		for _, ovName := range []string{"keyset1", "single"} {
+			for _, setName := range []string{"FD", "C"} {
+				for _, scName := range []string{"each-eager-tickcut", "each-lag-tickcut", "two-eager-tickcut"} {
+					if !triples(findOrch(ovName), findSet2(setName), findSchedule(scName), reduced, "reduced") {
+						return
+					}
+				}
+			}
+		}
+		return
+	}
+	// thorough: the triples of the full menu, and every placement of flush pauses x stage runs over the reduced menu
+	for _, ov := range orchVariants {
+		for _, setName := range []string{"FD", "C"} {
+			for _, sc := range schedules[:quickSchedules] {
+				if ov.name == "single" && sc.hold {
+					continue
+				}
+				if !triples(ov, findSet2(setName), sc, all, "full") {
+					return
+				}
+			}
+		}
+	}
+	for _, ovName := range []string{"keyset1", "single"} {
+		for conns := 1; conns <= 2; conns++ {
+			for tick := 0; tick < 2; tick++ {
+				for fm := 0; fm < 4; fm++ {
+					for dm := 0; dm < 4; dm++ {
+						if dm&^fm != 0 {
+							continue // the stage can only run after a flush pause here
+						}
+						sc := schedule{name: fmt.Sprintf("mask-c%d-t%d-f%d-d%d", conns, tick, fm, dm), conns: conns, tickCut: tick == 1, masks: true, flushMask: fm, drainMask: dm}
+						if !triples(findOrch(ovName), findSet2("FD"), sc, reduced, "reduced") {
+							return
+						}
+					}
+				}
+			}
+		}
+	}
 }
